@@ -326,6 +326,30 @@ def corrupt(toks, rng):
     return toks
 
 
+def install_http_stub():
+    """Replace requests.post (the library's only way out) by a local function: the 'server' decodes the
+    target it was sent and replies True iff the target holds h<i> = 'v' for the leaf number i at the end
+    of the URL.  Nothing leaves the process."""
+    import json as _json
+    import requests
+
+    class _Reply:
+        def __init__(self, text):
+            self.text = text
+
+        def close(self):
+            pass
+
+    def post(url, data=None, json=None, **kw):
+        try:
+            i = int(str(url).rstrip('/').rsplit('/', 1)[1])
+            tgt = json['target'] if json is not None else _json.loads(data['target'])
+            return _Reply('True' if tgt.get('h%d' % i) == 'v' else 'False')
+        except Exception as ex:      # a malformed URL / payload: the server says no
+            return _Reply('bad request: %s' % ex)
+    requests.post = post
+
+
 class LeafEnv:
     """A realisation of abstract leaves 1..n as concrete built-in checks whose
     truth is controlled by (target, creds).  ``kinds[i % len(kinds)]`` picks
@@ -339,6 +363,9 @@ class LeafEnv:
       path     a<i>.b.c:v                    creds.a<i> = {'b': [{'c': 'v'}]} iff true
     """
     ALL = ('role', 'generic', 'literal', 'bool', 'rule', 'path')
+    # with the remote checks (the caller installs harness.lang.install_http_stub): the stub server replies
+    # True iff the target it is sent holds h<i> = 'v'
+    WITH_HTTP = ALL + ('http', 'https')
 
     def __init__(self, kinds=('role',), offset=0, upper=False):
         self.kinds = tuple(kinds)
@@ -357,8 +384,8 @@ class LeafEnv:
     def text(self, i):
         k = self.kind(i)
         t = {'role': 'role:r%d', 'generic': 'k%d:%%(t%d)s', 'literal': "'lit%d':%%(t%d)s", 'bool': 'True:%%(b%d)s',
-             'rule': 'rule:n%d', 'path': 'a%d.b.c:v'}[k]
-        if self.upper:
+             'rule': 'rule:n%d', 'path': 'a%d.b.c:v', 'http': 'http://policy.invalid/leaf/%d', 'https': 'https://policy.invalid/leaf/%d'}[k]
+        if self.upper and k not in ('http', 'https'):
             t = {'role': 'role:R%d', 'generic': 'K%d:%%(T%d)s', 'literal': "'LIT%d':%%(T%d)s", 'bool': 'True:%%(B%d)s',
                  'rule': 'rule:N%d', 'path': 'A%d.B.C:v'}[k]
         t = t % ((i, i) if t.count('%d') == 2 else (i,))
@@ -388,6 +415,8 @@ class LeafEnv:
                 target[self._c('t%d' % i)] = 'v' if on else 'w'
             elif k == 'literal':
                 target[self._c('t%d' % i)] = (self._c('lit%d' % i)) if on else 'other'
+            elif k in ('http', 'https'):
+                target['h%d' % i] = 'v' if on else 'w'
             elif k == 'bool':
                 target[self._c('b%d' % i)] = bool(on)
             elif k == 'path':
